@@ -342,6 +342,15 @@ var indCtors = map[string]func(n []int, f []float64) instFn{
 			return outs(x.Compute(in[0])), x.IdlePeriod()
 		}
 	},
+	// StochasticRsi whose RSI period n[0] differs from the min/max look-back n[1]
+	"StochasticRsiG": func(n []int, f []float64) instFn {
+		x := momentum.NewStochasticRsiWithPeriod[float64](n[1])
+		x.Rsi = momentum.NewRsiWithPeriod[float64](n[0])
+		track(x)
+		return func(in []<-chan float64) ([]<-chan float64, int) {
+			return outs(x.Compute(in[0])), x.IdlePeriod()
+		}
+	},
 	"WilliamsR": func(n []int, f []float64) instFn {
 		x := momentum.NewWilliamsR[float64]()
 		x.Max.Period, x.Min.Period = n[0], n[0]
@@ -402,6 +411,17 @@ var indCtors = map[string]func(n []int, f []float64) instFn{
 	},
 	"KeltnerChannel": func(n []int, f []float64) instFn {
 		x := volatility.NewKeltnerChannelWithPeriod[float64](n[0])
+		track(x)
+		return func(in []<-chan float64) ([]<-chan float64, int) {
+			a, b, c := x.Compute(in[0], in[1], in[2])
+			return outs(a, b, c), x.IdlePeriod()
+		}
+	},
+	// KeltnerChannel with its public components configured separately: ATR over moving average n[0] of period n[1], EMA of period n[2]
+	"KeltnerChannelG": func(n []int, f []float64) instFn {
+		x := volatility.NewKeltnerChannel[float64]()
+		x.Atr = volatility.NewAtrWithMa[float64](maOf(n[0], n[1]))
+		x.Ema = trend.NewEmaWithPeriod[float64](n[2])
 		track(x)
 		return func(in []<-chan float64) ([]<-chan float64, int) {
 			a, b, c := x.Compute(in[0], in[1], in[2])
